@@ -150,7 +150,7 @@ fn judge(plan: &Plan, _tier: Tier) -> Judged {
 	j.sig = crate::disk::digest(&out.ops) ^ at;
 	let fault_desc = j.context.get("fault").and_then(|x| x.as_str()).unwrap_or("").to_string();
 	if let Some(v) = out.violation {
-		let owned = matches!(v.class.as_str(), "read_mismatch" | "scan_mismatch" | "panic" | "no_progress" | "hang" | "horizon_splits_commit" | "commit_without_seq");
+		let owned = matches!(v.class.as_str(), "read_mismatch" | "scan_mismatch" | "panic" | "no_progress" | "hang" | "horizon_splits_commit" | "horizon_behind_ack" | "commit_without_seq");
 		if owned {
 			j.violation = Some(Violation { class: v.class, detail: format!("[{}] {}", fault_desc, v.detail), explained: v.explained });
 			let _ = std::fs::remove_dir_all(&root);
